@@ -35,6 +35,13 @@ CLAIMED["C20"] = (
     "DESIGN.md 3/C20",
 )
 
+CLAIMED["C03"] = (
+    "runtime monitor with two local enclosure obligations per node and box (operand sampling through an independent opcode model; interpreter point values at points of the box) on both backends, plus transform decomposition through the trivial shapes X,Y,Z; crash monitor; witness shrinking",
+    "Held, up to 8 ulps, on every node/box/sample observed except the listed known findings; local obligations make the verdict independent of error compounding and of the dependency problem. Exploration.",
+    "atan2 with both operand intervals containing 0 excluded (stated); NaN results/intervals not judged; panicking or ill-formed interval results are left to C11; only bit-realisable points are used (a degenerate side [-0,-0] yields -0.0, never +0.0).",
+    "DESIGN.md 3/C03",
+)
+
 NOT_YET = {}
 
 def main():
